@@ -47,6 +47,19 @@ CLAIMED.update({
     ref="3.7"),
 })
 
+CLAIMED.update({
+ "C17": dict(
+    technique="deterministic simulation: seeded event-order scheduling of define / first-use / premature-use / other-module events over a live module, outcomes compared with a direct-reference twin world (acyclic) or a structural reference model (cyclic); delta-debugged replay",
+    level="seeded exploration of (program of 2-3 mutually referencing data classes + decorated function or a function-local class, spelling vector incl. 'B', Optional['B']/List/Dict/Union, whole-quoted, postponed evaluation, Self, constrained alias by string; definition order; first-use order; premature uses; a second module with the same class names defined and used in between; JSON-schema generation) histories; every non-premature use must return what the direct-reference program returns",
+    note="inputs restricted to nested dicts with int leaves and one invalid leaf so that the reference does not model conversions; cyclic programs use the structural model (cross-checked against the direct twin on acyclic runs: 0 disagreements so far); samples, does not enumerate (DESIGN 3.17)",
+    ref="3.17"),
+ "C19": dict(
+    technique="deterministic simulation: seeded operation-and-fault histories (parses, calls, abandoned generators, result mutations, late and foreign definitions) with hook and leaf faults; history-independence oracle = same operation alone in a fresh twin world; input snapshots; alias isolation after mutation",
+    level="seeded exploration of 5-18 step histories over Schema/DataClass/force_default classes, decorated functions and generators with mutable defaults and factories, function-local classes, lazily resolved references, a second module with the same class names; P1 caller inputs unchanged, P2 mutating a result changes no other live result, P3 every operation's outcome (and the pristine probes appended to every history) equals that of the same operation alone in a fresh world",
+    note="twin = same source under fresh names in the same process; an operation in which an n-th-call hook fault fired is not compared (later ones are); samples, does not enumerate (DESIGN 3.19)",
+    ref="3.19"),
+})
+
 NA = {
  "C01": "pure function of (declaration, options, input): no schedule, history, fault or knob can change the verdict; sampling inputs would be property-based testing, not simulation",
  "C02": "biconditional over the value domain of each constraint; pure",
